@@ -5,7 +5,7 @@ from __future__ import annotations
 
 import asyncio
 import logging
-from typing import TYPE_CHECKING, Any, Dict, Optional, Sequence, Union, cast
+from typing import TYPE_CHECKING, Any, Dict, Optional, Sequence, Set, Union, cast
 
 import kiwipy
 
@@ -535,6 +535,9 @@ class ProcessLauncher:
     ) -> None:
         self._loop = loop
         self._persister = persister
+        # The tasks stepping the processes that were launched or continued without waiting for them: the event loop only keeps
+        # weak references to tasks, so a process that waits (and that nothing else refers to) would be garbage collected
+        self._background_tasks: Set['asyncio.Future[Any]'] = set()
         self._load_context = load_context if load_context is not None else persistence.LoadSaveContext()
 
         if loader is not None:
@@ -593,7 +596,7 @@ class ProcessLauncher:
 
         if nowait:
             # XXX: can return a reference and gracefully use task to cancel itself when the upper call stack fails
-            asyncio.ensure_future(proc.step_until_terminated())  # noqa: RUF006
+            self._step_in_background(proc)
             return proc.pid
 
         await proc.step_until_terminated()
@@ -621,12 +624,18 @@ class ProcessLauncher:
 
         if nowait:
             # XXX: can return a reference and gracefully use task to cancel itself when the upper call stack fails
-            asyncio.ensure_future(proc.step_until_terminated())  # noqa: RUF006
+            self._step_in_background(proc)
             return proc.pid
 
         await proc.step_until_terminated()
 
         return proc.future().result()
+
+    def _step_in_background(self, proc: 'Process') -> None:
+        """Step the process until it terminates in a task of its own, which is kept until it is done."""
+        task = asyncio.ensure_future(proc.step_until_terminated())
+        self._background_tasks.add(task)
+        task.add_done_callback(self._background_tasks.discard)
 
     async def _create(
         self,
